@@ -219,6 +219,51 @@ fn cross_mode(i: &Input) -> Outcome {
     )
 }
 
+/// seed, mseed, len: a message of `len` bytes drawn from the harness PRNG seeded with `mseed` (multi-KiB messages; the
+/// replay command stays short).  Every pure and pre-hashed entry point signs / opens / verifies it as libsodium does
+/// (one message = one update chunk in the pre-hashed mode), and a libsodium signature over it no longer verifies once a
+/// bit anywhere in the message is changed -- in particular in the bytes after the last multiple of 64 KiB -- or the last
+/// byte is cut off.  (A size-dependent path -- buffering thresholds, piecewise feeding of bulk input -- only shows here.)
+fn large_message(i: &Input) -> Outcome {
+    let seed = i.arr::<32>("seed");
+    let len = i.num("len") as usize;
+    if len > (64 << 20) {
+        panic!("{} large_message: len must be at most 64 MiB", HARNESS);
+    }
+    let m = Rng::new(i.num("mseed")).bytes(len);
+    let base = Input::new().b("seed", &seed).b("m", &m);
+    sign_detached(&base)?;
+    sign_combined(&base)?;
+    sign_prehashed(&base)?;
+
+    let (pk, sk) = so::sign_seed_keypair(&seed);
+    let pure = so::sign_detached(&m, &sk);
+    let ph = so::sign_ph_create(&[&m], &sk);
+    let vin = |sig: &[u8], m: &[u8]| Input::new().b("sig", sig).b("m", m).b("pk", &pk);
+    verify_verdict(&vin(&pure, &m))?;
+    verify_verdict(&vin(&ph, &m))?;
+    if len == 0 {
+        return Ok(());
+    }
+    let mut positions = vec![0usize, len / 2, len - 1, (len - 1) & !0xffff, len & !0xffff, len & !0x7f];
+    positions.retain(|p| *p < len);
+    positions.dedup();
+    let ctxt = |r: Outcome, what: String| -> Outcome {
+        r.map_err(|mut f| {
+            f.detail = format!("{} [{} of the {}-byte message]", f.detail, what, len);
+            f
+        })
+    };
+    for p in positions {
+        let mut m2 = m.clone();
+        m2[p] ^= 0x10;
+        ctxt(verify_verdict(&vin(&pure, &m2)), format!("pure signature, bit 4 of byte {} changed", p))?;
+        ctxt(verify_verdict(&vin(&ph, &m2)), format!("ed25519ph signature, bit 4 of byte {} changed", p))?;
+    }
+    ctxt(verify_verdict(&vin(&pure, &m[..len - 1])), "pure signature, last byte cut off".into())?;
+    ctxt(verify_verdict(&vin(&ph, &m[..len - 1])), "ed25519ph signature, last byte cut off".into())
+}
+
 // ---------------------------------------------------------------------
 // Signatures whose commitment R or public key A carries a small-order (8-torsion) component without being small
 // order itself.  No signer produces them and no bit flip reaches them: they are constructed with libsodium's group
@@ -325,6 +370,7 @@ pub const C06: Registry = &[
     ("verify_small_order", verify_verdict),
     ("sign_prehashed", sign_prehashed),
     ("cross_mode", cross_mode),
+    ("large_message", large_message),
 ];
 
 fn h32(s: &str) -> [u8; 32] {
@@ -412,6 +458,19 @@ pub fn c06(ctx: &mut Ctx) -> Search {
             let mut s2 = sig;
             s2[32..].copy_from_slice(&sval);
             ctx.run("verify_verdict", vin(&s2, &m, &pk))?;
+        }
+    }
+
+    // messages of 64 KiB and more, around the multiples of 64 KiB (own generator state: the inputs below stay what they were)
+    {
+        let mut rng_l = Rng::new(0x1A26E + t as u64);
+        let mut big: Vec<u64> = vec![65536, 65537, 70000, 131073];
+        if t {
+            big.extend_from_slice(&[65535, 65600, 131071, 131072, 196609, 262144 + 4096 + 1, (1 << 20) + 1, (3 << 20) + 77]);
+        }
+        for len in big {
+            let seed = rng_l.arr::<32>();
+            ctx.run("large_message", Input::new().b("seed", &seed).u("mseed", rng_l.next() >> 16).u("len", len))?;
         }
     }
 
